@@ -109,6 +109,28 @@ pub fn char_style<'a, C: TestColor>(font: &'a MonoFont<'a>, text_color: bool, bg
     b.build()
 }
 
+/// the same style configured in the other builder order: colours and decorations first, font last
+pub fn char_style_font_last<'a, C: TestColor>(font: &'a MonoFont<'a>, text_color: bool, bg: bool, underline: u8, strike: u8) -> MonoTextStyle<'a, C> {
+    let mut b = MonoTextStyleBuilder::<C>::new();
+    if text_color {
+        b = b.text_color(C::TEXT);
+    }
+    if bg {
+        b = b.background_color(C::BG);
+    }
+    b = match underline {
+        1 => b.underline(),
+        2 => b.underline_with_color(C::UNDER),
+        _ => b,
+    };
+    b = match strike {
+        1 => b.strikethrough(),
+        2 => b.strikethrough_with_color(C::STRIKE),
+        _ => b,
+    };
+    b.font(font).build()
+}
+
 impl TextCase {
     pub fn font(&self) -> &'static MonoFont<'static> {
         font_by_name(&self.font).expect("font name")
